@@ -1,11 +1,11 @@
 // @unit c13_policy property=C13 attach=typify-impl/src/rust_extension.rs
 // @h c13_unconfigured tier=both bounded=enumerated-literal-crate-and-path
-// @h c13_any tier=both bounded=enumerated-literal-crate-and-path
-// @h c13_any_renamed tier=both bounded=enumerated-literal-crate-and-path
-// @h c13_never tier=both bounded=enumerated-literal-crate-and-path
-// @h c13_version_satisfied tier=both bounded=enumerated-literal-crate-and-path,one-requirement-version-pair
-// @h c13_version_unsatisfied tier=both bounded=enumerated-literal-crate-and-path,one-requirement-version-pair
-// @h c13_version_renamed tier=both bounded=enumerated-literal-crate-and-path,one-requirement-version-pair
+// @h c13_any tier=off bounded=enumerated-literal-crate-and-path
+// @h c13_any_renamed tier=off bounded=enumerated-literal-crate-and-path
+// @h c13_never tier=off bounded=enumerated-literal-crate-and-path
+// @h c13_version_satisfied tier=off bounded=enumerated-literal-crate-and-path,one-requirement-version-pair
+// @h c13_version_unsatisfied tier=off bounded=enumerated-literal-crate-and-path,one-requirement-version-pair
+// @h c13_version_renamed tier=off bounded=enumerated-literal-crate-and-path,one-requirement-version-pair
 // @h c13_hyphenated_crate tier=both bounded=enumerated-literal-crate-and-path
 // @h c13_no_path_separator tier=both bounded=enumerated-literal-crate-and-path
 // @canary canary_c13_policy
@@ -23,6 +23,11 @@
 //       name become underscores); without a rename the path is unchanged
 //   P6  a hyphenated crate name is compared with the path's first segment after replacing
 //       hyphens by underscores; a path without `::` is never substituted
+//
+// NOT DECIDED: every cell with a CONFIGURED crate (P2-P5). Their harnesses are kept below with
+// `tier=off`: symbolic execution of the slice does not finish within 15 minutes once
+// `settings.crates.get(..)` returns an entry, for a reason that was not found (the same
+// B-tree insert + get alone verifies in 57 s).
 //
 // Crate names, paths and the requirement/version pair are literals (one harness per cell of
 // the configuration table: enumerated, labelled bounded); the unknown-crate policy is
@@ -217,8 +222,8 @@ stubs! {
 
 stubs! {
     fn canary_c13_policy() {
-        let (r, _policy) = run(1, None, "uuid", "uuid::Uuid");
-        kani::assert(r.is_none(), "[CANARY] a crate configured `*` is never substituted");
+        let (r, _policy) = run(0, None, "uuid", "uuid::Uuid");
+        kani::assert(r.is_none(), "[CANARY] an unconfigured crate is never substituted");
         core::mem::forget(r);
     }
 }
